@@ -125,6 +125,17 @@ func coordsSection(r *vlib.Run) {
 		if ca.Mid(cb) != model3d.XYZ((a[0]+b[0])*0.5, (a[1]+b[1])*0.5, (a[2]+b[2])*0.5) {
 			fail("Mid/value", "Mid")
 		}
+		// axis constructors and element-wise quotient
+		if model3d.XZ(a[0], a[2]) != (model3d.Coord3D{X: a[0], Z: a[2]}) || model3d.YZ(a[1], a[2]) != (model3d.Coord3D{Y: a[1], Z: a[2]}) ||
+			model3d.XY(a[0], a[1]) != (model3d.Coord3D{X: a[0], Y: a[1]}) || model3d.X(a[0]) != (model3d.Coord3D{X: a[0]}) ||
+			model3d.Y(a[1]) != (model3d.Coord3D{Y: a[1]}) || model3d.Z(a[2]) != (model3d.Coord3D{Z: a[2]}) {
+			fail("axis-constructors/value", "X/Y/Z/XY/XZ/YZ")
+		}
+		if b[0] != 0 && b[1] != 0 && b[2] != 0 {
+			if q := ca.Div(cb); q != model3d.XYZ(a[0]/b[0], a[1]/b[1], a[2]/b[2]) || cb.Recip() != model3d.XYZ(1/b[0], 1/b[1], 1/b[2]) {
+				fail("Div/value", "Div/Recip")
+			}
+		}
 		if ca.Min(cb) != model3d.XYZ(math.Min(a[0], b[0]), math.Min(a[1], b[1]), math.Min(a[2], b[2])) ||
 			ca.Max(cb) != model3d.XYZ(math.Max(a[0], b[0]), math.Max(a[1], b[1]), math.Max(a[2], b[2])) {
 			fail("Min/value", "Min/Max")
